@@ -68,7 +68,7 @@ func faultDoc(t *rapid.T) map[string]any {
 			"n":      nested,
 			"tags":   tags,
 			"grid":   grid,
-			"o":      map[string]any{"p": float64(rapid.IntRange(1, 3).Draw(t, "op")), "q": rapid.SampledFrom([]string{"k", "m"}).Draw(t, "oq")},
+			"o":      map[string]any{"p": float64(rapid.IntRange(1, 3).Draw(t, "op")), "q": rapid.SampledFrom([]string{"k", "m"}).Draw(t, "oq"), "b": rapid.Bool().Draw(t, "ob")},
 			"scores": []any{fmt.Sprint(rapid.IntRange(1, 9).Draw(t, "sc0")), fmt.Sprint(rapid.IntRange(1, 9).Draw(t, "sc1")), rapid.SampledFrom([]string{"3", "n/a"}).Draw(t, "sc2")},
 			"nums":   []any{float64(rapid.IntRange(1, 9).Draw(t, "nm0")) + 0.5, float64(rapid.IntRange(1, 9).Draw(t, "nm1"))},
 		})
